@@ -153,6 +153,49 @@ func c15Check(r *vhlib.Run, m *vhlib.Model, data []byte, kind string) {
 			}
 		}()
 	}
+	// ... nor on how the caller sizes its Read buffers: sizes that divide the raw sizes the
+	// index advertises (the buffer then ends exactly where a record says its chunk ends),
+	// single bytes, and a few fixed sizes
+	{
+		sizes := map[int]bool{1: true, 64: true, 1024: true}
+		if accepted {
+			for _, d := range []int{2, 4, 8} {
+				if len(content) >= d && len(content)%d == 0 {
+					sizes[len(content)/d] = true
+				}
+			}
+			if len(content) > 0 {
+				sizes[len(content)] = true
+			}
+		}
+		for bs := range sizes {
+			func() {
+				defer func() { recover() }()
+				xr, err := xflate.NewReader(bytes.NewReader(data), nil)
+				if err != nil {
+					if accepted {
+						r.Violate("acceptance-depends-on-read-sizes", "second open failed", replay)
+					}
+					return
+				}
+				var c2 []byte
+				var rerr error
+				buf := make([]byte, bs)
+				for steps := 0; steps < 4*len(data)+4*len(content)+1000; steps++ {
+					n, e := xr.Read(buf)
+					c2 = append(c2, buf[:n]...)
+					if e != nil {
+						rerr = e
+						break
+					}
+				}
+				acc2 := rerr == io.EOF
+				if acc2 != accepted || (acc2 && !bytes.Equal(c2, content)) {
+					r.Violate("acceptance-depends-on-read-sizes", fmt.Sprintf("ReadAll: accepted=%v (%d bytes); Read buffers of %d bytes: accepted=%v (%d bytes, err=%v)", accepted, len(content), bs, acc2, len(c2), rerr), replay)
+				}
+			}()
+		}
+	}
 	// model: class and content
 	mobs := m.Ask("x c15 " + vhlib.Hex(data))
 	mf := strings.Fields(mobs)
